@@ -10,6 +10,7 @@ built by the generator (codes, blanks, '*', tail), so what must be ignored is
 known without parsing.  FASTA texts are rendered from a record structure, the
 expected records are that structure.
 """
+from .. import subtable
 from fractions import Fraction
 import io
 import math
@@ -271,7 +272,7 @@ def check_sequence(ctx, case, S=None):
 def private_table(E):
     if "private" not in E:
         from periodictable import core, mass, density
-        T = core.PeriodicTable("c18-private")
+        T = subtable.new("c18-private")
         mass.init(T)
         density.init(T)
         E["private"] = T
